@@ -82,6 +82,7 @@ func (w *world) judgePath(v *harness.Verdict, path [][]byte) {
 }
 
 func checkDirect(t *testing.T, c Case) (v harness.Verdict) {
+	memoTrim()
 	w := build(&c)
 	o := w.resolve(false)
 	chainWhy := chainReason(w.chain, w.trusted)
